@@ -155,7 +155,7 @@ def gen_case(rng, cs, tier):
 
 def run_shard(rep, tier, seed, shard, nshards):
     dl = Deadline(budget(tier, 45, 420))
-    ncases = budget(tier, 450, 6000)
+    ncases = budget(tier, 8000, 60000)
     for k in range(ncases):
         if dl.expired():
             break
@@ -167,7 +167,7 @@ def run_shard(rep, tier, seed, shard, nshards):
     dl2 = Deadline(budget(tier, 20, 240))
     nmax = budget(tier, 5, 6)
     k = 0
-    while not dl2.expired() and k < budget(tier, 6, 40):
+    while not dl2.expired() and k < budget(tier, 14, 60):
         cs = f"{seed}/C01/all/{shard}/{k}"
         k += 1
         rng = rng_for(cs)
